@@ -152,7 +152,9 @@ def rule_a(ctx):
             ctx.bad(rid, "wake:prim:%s" % ci.symbol, "unexpected write primitive %s" % ci.symbol, t["sp"])
         ctx.analysed["call_sites"] += 1
     # chain from each action root down to the primitive: exactly one call per frame
-    cone = dispatch_cone(F)
+    from ..anchors import action_instances
+    from ..effects import Cone
+    cone = Cone(F, [a for a, _ in action_instances(F)])     # frames below the action roots (not the dispatcher and its helpers)
     reaches = set()
     callers = F.callers()
     st = [w.id]
@@ -169,8 +171,6 @@ def rule_a(ctx):
         fi = F.inst[fid]
         if fi.body is None or fid == w.id or not fi.local or is_user_code(fi):
             continue
-        if fi.name.endswith("::handler"):
-            continue  # the dispatcher calls each action once per iteration: C02.b
         blocks = [bb for bb, t in fi.calls() if t.get("f") in reaches or
                   (t.get("f") is not None and F.inst[t["f"]].kind == "virtual" and any(tid in reaches for tid, _ in F.inst[t["f"]].impls or []))]
         okk, why = exactly_once(fi, blocks)
